@@ -7,6 +7,8 @@ TODS = [0, 52199, 52200, 52201, 60000, 70000, 75599, 75600, 75601, 86399]
 
 def gen_price(rng):
     k = rng.random()
+    if k < 0.04:
+        return rng.choice([0.004, 0.37, 0.01, 0.049, 0.5, 0.25])      # penny prices: considerations that round to 0 or 1
     if k < 0.35:
         return round(rng.uniform(1, 500), 2)
     if k < 0.5:
@@ -187,7 +189,13 @@ def gen_case(rng, n_ops=None, invalid_rate=0.15, pf_level=True):
             else:
                 a = rng.choice(list(quotes))
                 q = rng.choice([1, -1]) * rng.choice([1, 5, 20])
-                price = rng.choice([-1.0, 0.0]) if bad and rng.random() < 0.5 else gen_price(rng)
+                heldq = [x for x in pfs[pid]['held'] if pfs[pid]['held'][x]]
+                closing = False
+                if heldq and rng.random() < 0.4:
+                    a = rng.choice(heldq)
+                    q = -pfs[pid]['held'][a]            # exactly closes the holding (also when the request is an invalid one)
+                    closing = True
+                price = rng.choice([-1.0, 0.0]) if (bad and rng.random() < 0.5) or (closing and rng.random() < 0.3) else gen_price(rng)
                 if rng.random() < 0.3:
                     # a mark ahead of the transaction: the position's clock is then later than the portfolio's
                     ops.append(['pfmark', pid, a, gen_price(rng), int(t) + rng.choice([30, 100])])
